@@ -1,4 +1,4 @@
 """Rule modules; importing ALL registers every rule."""
-from . import alloc  # noqa: F401
+from . import alloc, buffers, guards  # noqa: F401
 
 ALL = True
